@@ -138,4 +138,22 @@ PROPS["C04"] = dict(
     fuzz=[("FuzzC04", 120)],
 )
 
+PROPS["C05"] = dict(
+    pkg="c05",
+    level="exploration",
+    technique="property-based testing (rapid): differential against three independent verifiers (stdlib-based strict checker, go.mozilla.org/pkcs7, openssl CLI) + own-parser round-trip",
+    level_text=("For generated (content 0..64 KiB, content type data / SpcIndirectDataContent / arbitrary OIDs with up to 12 arcs and 31-bit arcs, RSA 2048/3072/4096 pool keys, "
+                "certificates with 1..4 RDN issuers incl. multi-valued and 200-byte names, serials of 1..20 bytes with high-bit and leading-zero patterns) the bytes returned by "
+                "SignPKCS7 / SignAuthenticode must be strict canonical DER with exactly the stated shape (SHA-256, issuer+serial, embedded certificate, contentType and messageDigest "
+                "attributes in DER SET OF order, PKCS#1 v1.5 signature over the DER SET), must verify under go.mozilla.org/pkcs7 and (sampled 1 in 10, thorough 1 in 3) the openssl CLI, "
+                "must be rejected by them for content with one byte changed, and the library's own parser must recover content type, content, certificate and attributes and verify."),
+    level_note=("Trusts ref/der + the strict checker in props/c05, crypto/rsa, go.mozilla.org/pkcs7 (module cache) and, when present, openssl 3.x (absence is recorded in evidence, the check still decides). "
+                "For non-data content types the content is a concatenation of DER elements (the precondition the only caller, SignAuthenticode, satisfies). OID arcs are kept below 2^31 because Go's encoding/asn1 (used by the mozilla oracle) cannot read larger ones."),
+    rule=("case = (pool key, generated certificate, content type OID, content). Non-trivial = content >= 1 byte and (serial with high bit or >= 16 bytes, or multi-RDN issuer, or non-data OID, or key size != 2048); "
+          "distinct by SHA-256 of (content, certificate, OID)."),
+    assumptions=["go.mozilla.org/pkcs7 and openssl are correct verifiers", "certificate validity window covers the signing time (mozilla checks it)"],
+    quick=dict(checks=700, shards=4, timeout=900, shrinktime=15),
+    thorough=dict(checks=5000, shards=16, timeout=3000, shrinktime=30),
+)
+
 NOT_APPLICABLE = _NA()
